@@ -2,7 +2,10 @@
 (* correspondence, transaction level (C01/C02): on every recorded history the
    model's processTransactions verdict (error class) and the unspent set after
    apply_block are compared with the implementation's, op by op; the model state
-   follows the implementation's accepted blocks *)
+   follows the implementation's accepted blocks. Only the error classes of the
+   checks this property's proof rests on are compared
+   (C01: inputs unspent / not spent twice / created ids new + the coin sums);
+   signature / format / coin-hour / header differences belong to other properties *)
 Definition mism_ops := Eval vm_compute in flat_fail (replay_txn_mism rel_c01) cases_hist 0.
 Print mism_ops.
 (* the premises of the theorems hold on what was explored *)
